@@ -3,13 +3,13 @@ CONSTANTS
   a = a
   b = b
   c = c
-  Members <- M3
-  Ring <- Ring3
+  Members <- M2
+  Ring <- Ring2
   Leader = b
-  Std <- Std3
-  StdFrom <- NoStdFrom3
-  CycEdges <- Cyc3
-  FailMode = "none"
+  Std <- Std2
+  StdFrom <- NoStdFrom2
+  CycEdges <- Cyc2
+  FailMode = "dec"
   Fuel = 3
 INVARIANTS Accounting TeardownOnlyWhenQuiet LatchOnlyWhenQuiet NoWorkLost OrderedTeardown
 PROPERTIES Termination
